@@ -378,7 +378,8 @@ func (h *pgHarness) exec(s *pgSession, st *stmt, updBefore int) {
 		h.failf("s%d: statement failed: %s: %v", s.id, st.sql, err)
 	}
 	h.c.Label("stmt-" + st.label)
-	if strings.HasPrefix(st.sql, "INSERT") || strings.HasPrefix(st.sql, "UPSERT") || strings.HasPrefix(st.sql, "UPDATE") || strings.HasPrefix(st.sql, "DELETE") {
+	// UPSERT is not a PostgreSQL command: its tag ("ok") carries no count
+	if strings.HasPrefix(st.sql, "INSERT") || strings.HasPrefix(st.sql, "UPDATE") || strings.HasPrefix(st.sql, "DELETE") {
 		h.checkAffected(fmt.Sprintf("s%d %s", s.id, st.sql), res, s.st.upd-updBefore)
 	}
 }
@@ -409,6 +410,12 @@ func (h *pgHarness) execFailing(s *pgSession, st *stmt) {
 		h.failf("s%d: generator expectation: statement must fail but succeeded: %s", s.id, st.sql)
 	}
 	h.c.Label("stmt-" + st.label)
+	h.afterFailure(s)
+}
+
+// afterFailure: a statement failed inside the block of s. PostgreSQL semantics:
+// the block is aborted, nothing of it may ever be committed.
+func (h *pgHarness) afterFailure(s *pgSession) {
 	view := s.st.view
 	h.abort(s, "failed-statement")
 	if vk.Excluded(kfPgAfterFailure) {
@@ -428,7 +435,7 @@ func (h *pgHarness) execFailing(s *pgSession, st *stmt) {
 		}
 	}
 	end := rapid.SampledFrom([]string{"ROLLBACK", "COMMIT"}).Draw(h.rt, "endAfterFailure")
-	_, err = s.conn.ExecContext(bg, end)
+	_, err := s.conn.ExecContext(bg, end)
 	h.logf("s%d: %s => %v", s.id, end, err)
 	h.audit("after failed statement", false)
 }
@@ -488,7 +495,9 @@ func (h *pgHarness) autocommit(s *pgSession) {
 	if err != nil {
 		h.failf("s%d(auto): %s: %v", s.id, d.sql, err)
 	}
-	h.checkAffected(fmt.Sprintf("s%d(auto) %s", s.id, d.sql), res, st.upd)
+	if !strings.HasPrefix(d.sql, "UPSERT") {
+		h.checkAffected(fmt.Sprintf("s%d(auto) %s", s.id, d.sql), res, st.upd)
+	}
 	h.committed.apply(st)
 	h.c.Label("auto-" + d.label)
 	h.noteCommit(s)
@@ -627,9 +636,15 @@ func (h *pgHarness) step() {
 			}
 			h.c.Label("stmt-failing-query")
 		}
-		h.checkView(s, "after-failing-query")
 		if st.hasWrites() {
 			h.flag("failed-query-mid-transaction")
+		}
+		if vk.Excluded(kfPgAfterFailure) {
+			// as long as K13e is there the front-end keeps the engine's behaviour:
+			// a failing query or an unparsable statement leaves the transaction open
+			h.checkView(s, "after-failing-query")
+		} else {
+			h.afterFailure(s)
 		}
 	default:
 		h.checkView(s, "before-end")
